@@ -1,6 +1,7 @@
 SPECIFICATION Spec
 CONSTANTS
-  MaxLen = 10
+  MaxLen = 16
+  ArrayNs = {1, 2, 3, 4, 5, 8, 16}
 VIEW View
 INVARIANTS TypeOK LiveInv Refines RemainderInv ItemsInside ArithInv EmitInv
 CHECK_DEADLOCK FALSE
